@@ -320,9 +320,14 @@ func (g *Graph) addTask(t *Task) error {
 	// 	g.errs = append(g.errs, err)
 	// 	return err
 	// }
-	if _, ok := g.Vertices[t.ID]; !ok {
-		g.dotDiagram += fmt.Sprintf("\t\"%s\";\n", t.ID)
+	if vertex, ok := g.Vertices[t.ID]; ok {
+		// Keep the known vertex with its dependencies, dependents and retries.
+		// Replacing it would leave the edges of other vertices pointing to a
+		// vertex that is no longer part of the graph.
+		vertex.Task = t
+		return nil
 	}
+	g.dotDiagram += fmt.Sprintf("\t\"%s\";\n", t.ID)
 	g.Vertices[t.ID] = &Vertex{
 		ID:       t.ID,
 		Task:     t,
